@@ -5,7 +5,7 @@ from __future__ import annotations
 import ast
 from typing import Iterable
 
-from .dataflow import walk_scope
+from .dataflow import walk_body, walk_scope
 from .model import Cls, Func, Repo, dotted
 from .terms import Expander, Term, alts, subterms
 
@@ -404,10 +404,9 @@ class CallGraph:
         for f in self.repo.all_funcs():
             sites: list[tuple[ast.Call, list[Func]]] = []
             roots = [f.node.body] if isinstance(f.node, ast.Lambda) else f.node.body
-            for root in roots:
-                for n in walk_scope(root):
-                    if isinstance(n, ast.Call):
-                        sites.append((n, []))
+            for n in walk_body(roots):
+                if isinstance(n, ast.Call):
+                    sites.append((n, []))
             self._sites[f.qualname] = sites
         # several passes: callable-parameter resolution needs the callers index
         # of the previous pass (built aside and swapped in when complete)
